@@ -70,6 +70,8 @@ def read7Aux : Nat → Nat → Nat → P Int
   | 0, _, _ => P.fail .invalidSize
   | f+1, shl, result => P.bind (readN 1) fun b =>
     let u := leNat b
+    -- repair F23: the fifth group holds the last four bits of a 32-bit value
+    if shl = 28 ∧ u % 128 ≥ 16 then P.fail .invalidSize else
     if shl < 32 then
       let result' := (result ||| ((u % 128) <<< shl)) % 4294967296
       if u ≥ 128 then
